@@ -60,7 +60,7 @@ def jobs(tier, seed):
         J.append(Job('u1:' + f['name'], 'harness.c01', 'h_decode', {'family': f['name']}, timeout=1500, witnesses=['decoded']))
     for f in families.COMPRESSED_FAMILIES:
         J.append(Job('c2:' + f['name'], 'harness.c01', 'h_decode',
-                     {'family': f['name'], 'compressed': True, 'n_subsets': 2, 'max_diff_width': 4 if thorough else 2,
+                     {'family': f['name'], 'compressed': True, 'n_subsets': 2, 'max_diff_width': 3 if thorough else 1,
                       'strings': 'alphabet' if 'str' in f['name'] else 'opaque'},
                      timeout=3000 if thorough else 400, witnesses=['decoded']))
     J.sort(key=lambda j: 0 if j.name.startswith('c2') else 1)   # long jobs first
